@@ -153,6 +153,12 @@ func (ei *resourceInformer) createSharedInformer() error {
 
 // Snapshot returns all cached objects for this informer
 func (ei *resourceInformer) getCachedObjects() []kemtypes.ObjectAndFilterResult {
+	// Copy the cache and reset eventBuf in one critical section of eventBufLock:
+	// an event that updates the cache after the copy must be buffered after the reset,
+	// otherwise it is neither in the returned snapshot nor replayed by enableKubeEventCb.
+	ei.eventBufLock.Lock()
+	defer ei.eventBufLock.Unlock()
+
 	ei.cacheLock.RLock()
 	res := make([]kemtypes.ObjectAndFilterResult, 0)
 	for _, obj := range ei.cachedObjects {
@@ -161,11 +167,9 @@ func (ei *resourceInformer) getCachedObjects() []kemtypes.ObjectAndFilterResult 
 	ei.cacheLock.RUnlock()
 
 	// Reset eventBuf if needed.
-	ei.eventBufLock.Lock()
 	if !ei.eventCbEnabled {
 		ei.eventBuf = nil
 	}
-	ei.eventBufLock.Unlock()
 	return res
 }
 
